@@ -29,13 +29,14 @@ func v3(a [3]float64) V3 { return vector3.New(a[0], a[1], a[2]) }
 
 // Case: element kind, ordered triangle list (lattice corner ids), axis script, entry point, one ray.
 type Case struct {
-	ElKind string     `json:"elements"` // "library-triangle" | "reference-triangle"
-	Tris   [][]int    `json:"tris"`
-	Script []int      `json:"script"`
-	Whole  bool       `json:"whole_mesh"` // built by NewBVHFromMesh from one mesh instead of NewBVHTree over elements
-	Origin [3]float64 `json:"origin"`
-	Dir    [3]float64 `json:"dir"`
-	Range  int        `json:"range"`
+	ElKind string      `json:"elements"` // "library-triangle" | "reference-triangle"
+	Tris   [][]int     `json:"tris"`
+	Script []int       `json:"script"`
+	Whole  bool        `json:"whole_mesh"` // built by NewBVHFromMesh from one mesh instead of NewBVHTree over elements
+	Origin [3]float64  `json:"origin"`
+	Dir    [3]float64  `json:"dir"`
+	Range  int         `json:"range"`
+	Ladder *LadderCase `json:"ladder,omitempty"` // size-ladder case
 }
 
 // ---- reference element: a triangle with an exact, absolute-range hit test ----
@@ -179,7 +180,9 @@ func (k *checker) order(kind string, tris [][]int, only *Case) {
 	if n > 3 {
 		sizeClass = kind + "/4+-elements"
 	}
-	sameRay := func(r *rayQ) bool { return only == nil || (only.Origin == r.o && only.Dir == r.d && only.Range == r.ri) }
+	sameRay := func(r *rayQ) bool {
+		return only == nil || (only.Origin == r.o && only.Dir == r.d && only.Range == r.ri)
+	}
 	// per-element minimum and the library's list scan, per ray
 	nearest := make([]hitRes, len(rays))
 	// elemBroken[ray]: some element, asked alone, breaks the hit-test protocol the scans rely on
@@ -387,6 +390,10 @@ func run(c *core.Ctx) {
 	c.Bound("axis_sequences", "every answer sequence of the builder's axis draws (3 per node)")
 	c.Bound("rays", fmt.Sprintf("%d (27 origins x 26 directions x ranges [0,inf), [0.5,2])", len(rays)))
 	c.Bound("max_elements", 5)
+	k.runLadder()
+	if c.Expired() || c.Args["only"] == "ladder" {
+		return
+	}
 	sawChoice := false
 	for n := 1; n <= 5; n++ {
 		fam := pickEvery(all, sizes[n])
@@ -457,5 +464,9 @@ func replay(c *core.Ctx) {
 		return
 	}
 	k := &checker{c: c}
+	if cs.Ladder != nil {
+		k.ladderSet(cs.Ladder.N, cs.Ladder.Scale, cs.Ladder)
+		return
+	}
 	k.order(cs.ElKind, cs.Tris, &cs)
 }
